@@ -216,7 +216,11 @@ def api_op(r, ndev, own):
     if x < 0.96:
         return 'D %d %d %d %d %d %d' % (idev, r.choice([4294967295, 0, 1, 2097151, 2097152, 123456]), r.choice([255, 0, 130, 254]), r.choice([255, 0, 25, 127, 128]),
                                         r.choice([65535, 0, 2046, 2047, 2048, 275]), r.choice([255, 0, 4, 7, 8, 15]))
-    return 'X'
+    if x < 0.975:
+        return 'X'
+    if x < 0.99:
+        return 'L %d %s' % (r.randrange(4), ','.join(str(p) for p in r.sample(FAST_PGNS + SINGLE_PGNS + [65300, 130900, 127500], r.randint(0, 3))) or '-')
+    return 'M %d %d' % (r.choice([0, 1, 2, 3, 4]), r.choice([own[0], 30, 251, 100, 254]))
 
 
 def random_history_api(r, n_ops=40):
